@@ -44,6 +44,9 @@ def expr_texts(rng, n):
 
 # minimised earlier failures: always run (first in the batch)
 PF_CORPUS = [
+    # argument names that str.isdigit() accepts but int() rejects
+    ("template-arg-name", "{{a|\u00b2=x}}"), ("template-arg-name", "{{a|\u2460=x|\u00b9=y}}"), ("PAGENAME", "{{PAGENAME|\u00b2=x}}"),
+    ("#tag", "{{#tag:ref|x|\u00b2=y}}"), ("#invoke", "{{#invoke:echo|main|\u00b2=x}}"), ("argument-reference", "{{{\u00b2}}}"),
     ("#pad", "{{padleft:a|99999999999999999999|(}}"), ("#pad", "{{padright:a|99999999999999999999|(}}"),
     ("#expr", "{{#expr: 3 e 9999}}"), ("#expr", "{{#expr: 3 e 99999999}}"), ("#expr", "{{#expr: 0 e -99999999}}"),
     ("#expr", "{{#expr: " + " * ".join(["1 e 308"] * 15) + "}}"), ("#expr", "{{#expr: 1/0}}"), ("#expr", "{{#expr: ln 0}}"),
@@ -174,7 +177,8 @@ def run(run):
     calls = PF_CORPUS + pf_texts(rng, names, 2 if quick else 12) + expr_texts(rng, 600 if quick else 20000)
     # several calls on one page (failures of one call must not disturb the next): unknown functions, bad arguments and good
     # calls side by side, also inside a template argument and repeated
-    single = [t for _, t in calls if len(t) < 200]
+    # (the two functions whose known finding is a missing database table are left to their single-call pages)
+    single = [t for _, t in calls if len(t) < 200 and "fullurl" not in t.lower()]
     odd = ["{{#nosuchfn:x}}", "{{#nosuchfn2|y}}", "{{#unknown}}", "{{#nosuchfn:a|k=v}}", "{{#expr:1+}}", "{{#if:x|y}}", "{{lc:A}}",
            "{{#time:}}", "{{#switch:}}", "{{#titleparts:}}", "{{#invoke:}}", "{{#tag:}}", "{{#rel2abs:}}"]
     for _ in range(150 if quick else 3000):
